@@ -30,7 +30,7 @@ def gen(rng, ctx):
         ni = rng.randint(1, 4)
         cd = G.rand_circuit(rng, ni, rng.randint(2, 8), max_fanin=4, p_const=0.3, allow_x=rng.random() < 0.3, ensure_loaded=rng.random() < 0.8)
         if rng.random() < 0.6:
-            cd = G.add_blackboxes(rng, cd, rng.randint(1, 2), p_unconnected=0.15)
+            cd = G.add_blackboxes(rng, cd, rng.randint(1, 2), p_unconnected=0.15, bbdefs=[{"name": "rng", "inputs": [], "outputs": ["q"]}, {"name": "src2", "inputs": [], "outputs": ["a", "b"]}] if rng.random() < 0.2 else None)
         ncor = rng.choice([0, 1, 1, 1, 2, 3])
         cors = [[rng.choice(CORRUPTIONS), rng.getrandbits(30)] for _ in range(ncor)]
         flags = {"fail_fast": rng.random() < 0.5, "unloaded": rng.random() < 0.4, "undriven": rng.random() < 0.7, "single_input_gates": rng.random() < 0.4}
